@@ -100,7 +100,7 @@ def run_case(case, rec, cid):
             desg = "P%dY%dM%dD" % (c["y"], c["mo"], c["d"])
         dec = c.get("dec")          # decimal digits on the last time unit present ("hms" | "hm" | "h")
         form = c.get("tform", "hms")
-        dtxt = ("," + dec) if dec else ""
+        dtxt = ((c.get("dsep") or ",") + dec) if dec else ""
         if form == "hms":
             tm = ("%02d%02d%02d" if c["basic"] else "%02d:%02d:%02d") % (c["h"], c["mi"], c["s"]) + dtxt
             desg += "T%dH%dM%d%sS" % (c["h"], c["mi"], c["s"], dtxt)
@@ -193,7 +193,7 @@ def expand(job):
             yield {"kind": "alt", "y": rnd.choice([0, 1, 4, 10, 1999, rnd.randint(0, 9999)]), "mo": rnd.randint(0, 12) if not ordinal else 0,
                    "d": rnd.randint(0, 31) if not ordinal else rnd.randint(0, 366), "h": rnd.randint(0, 23), "mi": rnd.randint(0, 59),
                    "s": rnd.randint(0, 59), "basic": rnd.random() < 0.5, "ord": ordinal, "tform": rnd.choice(["hms", "hms", "hm", "h"]),
-                   "dec": rnd.choice([None, None, "5", "25", "125", "75"])}
+                   "dec": rnd.choice([None, None, "5", "25", "125", "75"]), "dsep": rnd.choice([",", "."])}
 
 
 def jobs(tier, seed):
